@@ -18,13 +18,17 @@ ID = "C13"
 ANY = "&impl ::core::any::Any"
 SCOPES = ["def", "mid", "key", "root", "other_crate"]
 # how far a visibility reaches, as the index of the outermost scope that may name the item
-REACH = {"": 0, "pub(self)": 0, "pub(super)": 1, "pub(in crate::KEY)": 2, "pub(crate)": 3, "pub": 4}
+REACH = {"": 0, "pub(self)": 0, "pub(in self)": 0, "pub(super)": 1, "pub(in super)": 1, "pub(in crate::KEY)": 2, "pub(in super::super)": 2,
+         "pub(crate)": 3, "pub(in super::super::super)": 3, "pub": 4}
 
 
 def enumerate_states(tier):
     progs = []
-    for req in ["", "pub", "pub(crate)", "pub(super)", "pub(in crate::KEY)"]:
+    for req in ["", "pub", "pub(crate)", "pub(super)", "pub(in crate::KEY)", "pub(self)", "pub(in self)", "pub(in super)", "pub(in super::super)",
+                "pub(in super::super::super)"]:
         for fnvis in ["", "pub", "pub(crate)"]:
+            if fnvis == "pub(crate)" and "in s" in req:
+                continue
             progs.append(dict(mode="fn", req=req, itemvis=fnvis))
         # visibility is independent of the other options: exporting mocks must not widen the trait
         progs.append(dict(mode="fn", req=req, itemvis="pub", opts="export"))
@@ -34,7 +38,7 @@ def enumerate_states(tier):
             for fnvis in ["pub", "pub(crate)"]:
                 progs.append(dict(mode="mod", req=req, itemvis=modvis, fnvis=fnvis))
             progs.append(dict(mode="mod", req=req, itemvis=modvis, fnvis="pub", opts="export"))
-    for tvis in ["", "pub", "pub(crate)", "pub(super)"]:
+    for tvis in ["", "pub", "pub(crate)", "pub(super)", "pub(in super::super)"]:
         for deleg in ["static", "ref"]:
             for attrvis in ["", "pub"]:
                 progs.append(dict(mode="trait", req=tvis, itemvis=attrvis, deleg=deleg))
